@@ -265,6 +265,25 @@ def check_big_base(run, case):
     finally:
         repo.drop_rules(name)
 
+NEAR_ONE = [0.9999999999, 1 - 2 ** -40, 0.999999999999, 1 - 2 ** -52]
+def near_one_cases():
+    """Fixed cases (own generators): the Markov structure holds all but 1e-10 .. 2e-16 of the mass (a ruleset trained with a tiny coverage); 1 - P(M) is small but real,
+    and --skip_brute has to rescale the other structures by it (seeded C14s: a 'rounding residue' guard left them unscaled)."""
+    import random
+    out = []
+    for i, pm in enumerate(NEAR_ONE):
+        r = random.Random(7700 + i)
+        while True:
+            c = gen_case(r)
+            others = [b for b in c['spec']['base'] if b[0] != 'M']
+            if c['place'] in ('first', 'middle', 'last') and others:
+                break
+        tot = sum(p_ for _, p_ in others)
+        c['spec']['base'] = [['M', pm]] + [[s_, p_ / tot * (1 - pm)] for s_, p_ in others]
+        c['near_one'] = pm
+        out.append(c)
+    return out
+
 def run(run, rng):
     run.required_events = ['POP', 'skip_brute_comparisons', 'all_lower_comparisons', 'flag_restore_histories']
     run.min_distinct = 8
@@ -272,6 +291,9 @@ def run(run, rng):
                        'order compared modulo permutations inside runs of exactly equal probability (before or after rescaling)']
     if run.shard[0] == 1 % run.shard[1]:
         run.guard({'big_base': True, 'hseed': rng.getrandbits(32)}, check_big_base, seconds=600)
+    if run.shard[0] == 2 % run.shard[1]:
+        for c in near_one_cases():
+            run.guard(c, check_case, run.tier, seconds=120)
     for i in range(N[run.tier]):
         run.guard(gen_case(rng), check_case, run.tier, seconds=120)
 
